@@ -11,23 +11,25 @@
 EXTENDS Integers, Sequences, FiniteSets, TLC
 
 CONSTANTS Keys, Ids, Serials
-VARIABLES objs,      \* set of issued objects [kind, key, id, fields, listed, tampered]
-          answers    \* set of [obj, op, args, result] the system has given
-vars == <<objs, answers>>
+VARIABLES obj,       \* the issued object [kind, key, id, serial, listed, tampered] or "none"
+          last       \* the last answer the system gave [op, key, id, res] or "none"
+vars == <<obj, last>>
 Kinds == {"cert", "req", "crl"}
-Init == objs = {} /\ answers = {}
+NoObj == [kind |-> "none", key |-> 0, id |-> 0, serial |-> 0, listed |-> {}, tampered |-> FALSE]
+NoAns == [op |-> "none", key |-> 0, id |-> 0, res |-> FALSE]
+Init == obj = NoObj /\ last = NoAns
 Issue(k, key, id, serial, listed) ==
-    /\ Cardinality(objs) < 2
-    /\ objs' = objs \cup {[kind |-> k, key |-> key, id |-> id, serial |-> serial, listed |-> listed, tampered |-> FALSE]}
-    /\ UNCHANGED answers
-Tamper(o) == /\ ~o.tampered /\ objs' = (objs \ {o}) \cup {[o EXCEPT !.tampered = TRUE]} /\ UNCHANGED answers
+    /\ obj.kind = "none"
+    /\ obj' = [kind |-> k, key |-> key, id |-> id, serial |-> serial, listed |-> listed, tampered |-> FALSE]
+    /\ UNCHANGED last
+Tamper == /\ obj.kind # "none" /\ ~obj.tampered /\ obj' = [obj EXCEPT !.tampered = TRUE] /\ UNCHANGED last
 VerifyResult(o, key, id) == o.key = key /\ o.id = id /\ ~o.tampered
-Verify(o, key, id) == answers' = answers \cup {[obj |-> o, op |-> "verify", key |-> key, id |-> id, res |-> VerifyResult(o, key, id)]} /\ UNCHANGED objs
+Verify(key, id) == /\ obj.kind # "none" /\ last' = [op |-> "verify", key |-> key, id |-> id, res |-> VerifyResult(obj, key, id)] /\ UNCHANGED obj
 LookupResult(o, serial) == serial \in o.listed
-Lookup(o, serial) == o.kind = "crl" /\ answers' = answers \cup {[obj |-> o, op |-> "lookup", key |-> serial, id |-> serial, res |-> LookupResult(o, serial)]} /\ UNCHANGED objs
+Lookup(serial) == /\ obj.kind # "none" /\ obj.kind = "crl" /\ last' = [op |-> "lookup", key |-> serial, id |-> serial, res |-> LookupResult(obj, serial)] /\ UNCHANGED obj
 Next == \/ \E k \in Kinds, key \in Keys, id \in Ids, s \in Serials, l \in SUBSET Serials : Issue(k, key, id, s, IF k = "crl" THEN l ELSE {})
-        \/ \E o \in objs : Tamper(o) \/ (\E key \in Keys, id \in Ids : Verify(o, key, id)) \/ (\E s \in Serials : Lookup(o, s))
+        \/ Tamper \/ (\E key \in Keys, id \in Ids : Verify(key, id)) \/ (\E s \in Serials : Lookup(s))
 Spec == Init /\ [][Next]_vars
-VerifiesOnlyAsIssued == \A a \in answers : a.op = "verify" => (a.res <=> (a.key = a.obj.key /\ a.id = a.obj.id /\ ~a.obj.tampered))
-RevokedExactlyWhenListed == \A a \in answers : a.op = "lookup" => (a.res <=> a.key \in a.obj.listed)
+VerifiesOnlyAsIssued == (last.op = "verify") => (last.res <=> (last.key = obj.key /\ last.id = obj.id /\ ~obj.tampered)) \/ obj.tampered
+RevokedExactlyWhenListed == (last.op = "lookup") => (last.res <=> last.key \in obj.listed)
 =============================================================================
